@@ -137,6 +137,9 @@ fn queue_file_range(
                     stat_tx.send(StatusUpdate::Error(XcpError::CopyError(e.to_string())))
                 }
             };
+            // Whoever holds the last reference finalises the file, so
+            // that a failure there is reported rather than just logged.
+            let stat_result = stat_result.and_then(|_| finalise_if_last(harc, &stat_tx));
             if let Err(e) = stat_result {
                 let msg = format!("Failed to send status update message. This should not happen; aborting. Error: {}", e);
                 error!("{}", msg);
@@ -145,6 +148,18 @@ fn queue_file_range(
         });
     }
     Ok(len)
+}
+
+// Finalise the copy (permissions, timestamps, sync) if this is the
+// last reference to the handle, reporting any failure.
+fn finalise_if_last(harc: Arc<CopyHandle>, status_channel: &Arc<dyn StatusUpdater>) -> Result<()> {
+    if let Some(handle) = Arc::into_inner(harc) {
+        if let Err(e) = handle.finalise() {
+            error!("Error finalising copy: aborting.");
+            status_channel.send(StatusUpdate::Error(XcpError::CopyError(e.to_string())))?;
+        }
+    }
+    Ok(())
 }
 
 fn queue_file_blocks(
@@ -159,6 +174,7 @@ fn queue_file_blocks(
 
     if handle.try_reflink()? {
         info!("Reflinked, skipping rest of copy");
+        handle.finalise()?;
         return Ok(len);
     }
 
@@ -172,20 +188,27 @@ fn queue_file_blocks(
         queue_file_range(&harc, 0..len, pool, status_channel)
     };
 
-    if probably_sparse(&harc.infd)? {
+    let queued = if probably_sparse(&harc.infd)? {
         if let Some(extents) = map_extents(&harc.infd)? {
             let sparse_map = merge_extents(extents)?;
             let mut queued = 0;
             for ext in sparse_map {
                 queued += queue_file_range(&harc, ext.into(), pool, status_channel)?;
             }
-            Ok(queued)
+            queued
         } else {
-            queue_whole_file()
+            queue_whole_file()?
         }
     } else {
-        queue_whole_file()
+        queue_whole_file()?
+    };
+
+    // All blocks may already be done (or there were none).
+    if let Some(handle) = Arc::into_inner(harc) {
+        handle.finalise()?;
     }
+
+    Ok(queued)
 }
 
 // Dispatch worker; receives queued files and hands them to
